@@ -4631,8 +4631,6 @@ _trait_delegate(trait_object *trait, PyObject *args)
             &modify_delegate)) {
         return NULL;
     }
-    Py_INCREF(delegate_name);
-    Py_INCREF(delegate_prefix);
 
     if (modify_delegate) {
         trait->flags |= TRAIT_MODIFY_DELEGATE;
@@ -4641,8 +4639,8 @@ _trait_delegate(trait_object *trait, PyObject *args)
         trait->flags &= ~TRAIT_MODIFY_DELEGATE;
     }
 
-    trait->delegate_name = delegate_name;
-    trait->delegate_prefix = delegate_prefix;
+    set_value(&trait->delegate_name, delegate_name);
+    set_value(&trait->delegate_prefix, delegate_prefix);
     if ((prefix_type < 0) || (prefix_type > 3)) {
         prefix_type = 0;
     }
@@ -4773,12 +4771,9 @@ _trait_set_property(trait_object *trait, PyObject *args)
         trait->setattr = setattr_property_handlers[set_n];
     }
 
-    trait->delegate_name = get;
-    trait->delegate_prefix = set;
-    trait->py_validate = validate;
-    Py_INCREF(get);
-    Py_INCREF(set);
-    Py_INCREF(validate);
+    set_value(&trait->delegate_name, get);
+    set_value(&trait->delegate_prefix, set);
+    set_value(&trait->py_validate, validate);
     Py_INCREF(Py_None);
     return Py_None;
 }
@@ -4794,21 +4789,18 @@ trait_clone(trait_object *trait, trait_object *source)
     trait->getattr = source->getattr;
     trait->setattr = source->setattr;
     trait->post_setattr = source->post_setattr;
-    trait->py_post_setattr = source->py_post_setattr;
     trait->validate = source->validate;
-    trait->py_validate = source->py_validate;
     trait->default_value_type = source->default_value_type;
-    trait->default_value = source->default_value;
-    trait->delegate_name = source->delegate_name;
-    trait->delegate_prefix = source->delegate_prefix;
     trait->delegate_attr_name = source->delegate_attr_name;
-    trait->handler = source->handler;
-    Py_XINCREF(trait->py_post_setattr);
-    Py_XINCREF(trait->py_validate);
-    Py_XINCREF(trait->delegate_name);
-    Py_XINCREF(trait->default_value);
-    Py_XINCREF(trait->delegate_prefix);
-    Py_XINCREF(trait->handler);
+    /* The destination may already hold values (clone() can be applied to any
+       CTrait, including the source itself): take the new reference before
+       the old one is released. */
+    set_value(&trait->py_post_setattr, source->py_post_setattr);
+    set_value(&trait->py_validate, source->py_validate);
+    set_value(&trait->default_value, source->default_value);
+    set_value(&trait->delegate_name, source->delegate_name);
+    set_value(&trait->delegate_prefix, source->delegate_prefix);
+    set_value(&trait->handler, source->handler);
 }
 
 static PyObject *
